@@ -1852,6 +1852,10 @@ VmResult vm_call_function(VmState *vm, uint32_t fn_idx, NanoValue *args, uint16_
                                      &ext_result, &vm->heap,
                                      ext_err, sizeof(ext_err));
             }
+            /* OP_CALL_EXTERN popped the arguments off the stack: they are owned here until the call is over */
+            for (int ai = 0; ai < trap.data.extern_call.argc; ai++) {
+                vm_release(&vm->heap, trap.data.extern_call.args[ai]);
+            }
             if (!ffi_ok) {
                 return vm_error(vm, VM_ERR_NOT_IMPLEMENTED,
                                 "FFI call failed: %s", ext_err);
